@@ -122,7 +122,7 @@ def r2_grouping(ctx):
     if ctors:
         kw = {k.arg: astx.u(k.value) for k in ctors[0].keywords}
         rk = astx.unique_def(f.node, "ranking")
-        okr = rk is not None and astx.u(rk) == f"tuple([frozenset({{None}}) if pd.isnull(c) else frozenset({{c}}) for c in {key}])"
+        okr = rk is not None and astx.u(rk) == astx.A(f"tuple([frozenset({{None}}) if pd.isnull(c) else frozenset({{c}}) for c in {key}])")
         ctx.check(okr and kw.get("ranking") == "ranking", f, ctors[0], "positions follow the group key in column order; blanks kept as {None}", astx.u(rk)[:100] if rk is not None else "",
                   f"ranking is built as `{astx.u(rk) if rk is not None else None}`")
         N = Normalizer(f.node, inline=False)
@@ -173,7 +173,7 @@ def r3_guards(ctx):
         bool_key(Normalizer(f.node, inline=False).conj(astx.path_condition(f.node, inner[0], pm, carried=False))) == "not in('Candidate', line[0])"
     ctx.check(good, f, inner[0] if inner else f.node, "load_scottish: a non-candidate line inside the candidate block -> DataError", "", "candidate-line check changed")
     dc = astx.unique_def(f.node, "data_cand_num")
-    ctx.check(dc is not None and astx.u(dc) == "len([r for r in data if 'Candidate' in str(r[0])])", f, dc or f.node, "declared candidate count is compared with the number of candidate lines", "",
+    ctx.check(dc is not None and astx.u(dc) == astx.A("len([r for r in data if 'Candidate' in str(r[0])])"), f, dc or f.node, "declared candidate count is compared with the number of candidate lines", "",
               "data_cand_num changed")
     ballots_line = min((n.lineno for n in astx.walk_own(f.node) if isinstance(n, ast.Call) and astx.call_name(n) == "Ballot" and n.keywords), default=10 ** 9)
     ctx.check(all(r.lineno < ballots_line for r in astx.raises_in(f.node)), f, f.node, "load_scottish: all rejections precede ballot construction", "", "a rejection happens after ballots are built")
@@ -216,7 +216,7 @@ def r4_scottish(ctx):
         good = defs.get(f"num_to_cand[{i} + 1]") == "cand" and defs.get("cand") == f"{line}[1]" and defs.get("party") == f"{line}[2]" and defs.get("cand_to_party[cand]") == "party"
     ctx.check(good, f, lp or f.node, "candidate numbers are 1-based positions in the candidate block; name and party from columns 1 and 2", "", "candidate numbering / fields changed")
     good = defs.get("ballot_weight") == "Fraction(line[0])" and defs.get("cand_ordering") == "line[1:]" and \
-        defs.get("ranking") == "tuple([frozenset({num_to_cand[n]}) for n in cand_ordering])" and defs.get("ballots[i]") == "Ballot(ranking=ranking, weight=ballot_weight)"
+        defs.get("ranking") == astx.A("tuple([frozenset({num_to_cand[n]}) for n in cand_ordering])") and defs.get("ballots[i]") == "Ballot(ranking=ranking, weight=ballot_weight)"
     ctx.check(good, f, f.node, "ballot line = multiplicity followed by candidate numbers, mapped to the declared candidates in order", "", "ballot-line parsing changed")
     rets = [n for n in astx.walk_own(f.node) if isinstance(n, ast.Return)]
     ctx.check(len(rets) == 1 and astx.u(rets[0].value) == "(profile, seats, cand_list, cand_to_party, ward)" and
